@@ -38,6 +38,8 @@ class Scheduler:
         else:
             self.sizew = [1, 0, 0, 0, 0, 0, 0, 0]
         self.fifo_bias = ds.pick([0.6, 0.95, 0.2])
+        # most runs make real progress between faults: 0-2 injected faults per run
+        self.fault_budget = ds.pick([1, 0, 0, 2, 1])
 
     def candidates(self, extra):
         c = {k: [] for k in KINDS}
@@ -51,6 +53,8 @@ class Scheduler:
                 c[k] = lst
         if self.w['stall'] > 0:
             c['stall'] = [p for p in c['deliver'] if p.stall == 0]
+        if self.fault_budget <= 0:
+            c['fault'] = []
         return c
 
     def step(self, extra=None):
@@ -110,6 +114,7 @@ class Scheduler:
             sim.sched(k, label)
             if k == 'fault':
                 sim.nontrivial = True
+                self.fault_budget -= 1
             fn()
         return True
 
